@@ -6,6 +6,10 @@ Case families (field "k"):
           non-ASCII; balanced; no backslashes) on AnsiFormatter(forced) / PlainFormatter /
           AnsiFormatter.remove_format, optionally with a style stack left by an earlier message and
           a per-call style                                      -> validates the pastel model
+          field "sset": the two formatters are built from a GIVEN style set - an empty StyleSet(), a default set with
+          styles removed (down to none), small sets of own styles, also under default tag names; a tag denotes a
+          style only when the set (or pastel itself: info / comment / question / error) knows it, every other tag -
+          `<b>` under an empty set - is text for AnsiFormatter and PlainFormatter alike
   bad     small malformed stream (unbalanced / wrongly nested tags, invalid colours): model and
           pastel must agree on ValueError; the oracle demands nothing (outside the quantifier)
   sgr     the style table 10 fg x 10 bg x 2^7 attributes through the three ways of supplying a style; route "ctag":
@@ -41,7 +45,9 @@ LEVEL_TEXT = ("Proved for all inputs of the models: SGR codes of every style are
               "included) restores the indentation and indents each line by its enclosing scopes only - also over several "
               "section outputs, where an operation on an earlier section re-draws the sections shown below: the screen shows every "
               "line behind the indentation fixed by the scopes around ITS write (section_scopes_lexical, section_redraw_keeps_indent, "
-              "built on C15's screen_refines_indented). The models "
+              "built on C15's screen_refines_indented). The message theorems hold for every resolver, hence for the formatters of "
+              "every style set; a style set of size 0 registers nothing (formatter_registry_empty: only pastel's own four styles "
+              "remain, b / u / c1 / c2 are text: empty_set_default_tags_are_text). The models "
               "are tied to the code by regenerated tables (style set, converter, pastel SGR tables, the write gate) "
               "and by differential runs against the real classes.")
 LEVEL_NOTE = ("Trusted: Lean kernel + propext/Quot.sound/Classical.choice; tools/genparts/c11.py; this harness; "
@@ -59,7 +65,9 @@ REQUIRED_THEOREMS = ["Clikit.Props.C11." + n for n in (
     "io_delegates", "balanced_decides", "message_ok_decides", "balanced_text_decided", "message_balanced_decided",
     "indent_lines_rendered_decided", "spec_codes_decides", "sgr_exact_decided", "sgr_call_ignores_registered_tag",
     # indentation scopes over several sections (Model/SectionScopes.lean on the section model of C15)
-    "section_scopes_lexical", "section_redraw_keeps_indent")]
+    "section_scopes_lexical", "section_redraw_keeps_indent",
+    # formatters built from a given style set (Model/StyleSets.lean)
+    "formatter_registry_none", "formatter_registry_empty", "style_set_emptied", "empty_set_default_tags_are_text")]
 RULE = ("msg: random ASTs (depth <= 4) over named styles of the default style set (any case), inline "
         "fg/bg/options specs, unknown tags, text over ASCII, '<' '>' '/', newline, non-ASCII incl. the four "
         "non-ASCII letters Python's case-insensitive [a-z] admits; non-trivial = at least one style node, distinct "
@@ -70,7 +78,13 @@ RULE = ("msg: random ASTs (depth <= 4) over named styles of the default style se
         "tag (style set / add_style; differing in the foreground or in one attribute), the same Style object adjusted "
         "after its registration, a tag of the default style set, a pastel built-in tag, an unknown tag - through "
         "AnsiFormatter.format / Output.format / IO.format (every style with one combination, thorough: styles with "
-        "<= 1 attribute with all 21 combinations); msg: the per-call style carries such a tag in 4 of 5 cases. write: full "
+        "<= 1 attribute with all 21 combinations); msg: the per-call style carries such a tag in 4 of 5 cases. msg/sset: "
+        "AnsiFormatter and PlainFormatter built from ONE given style set (one StyleSet object for both, or one each) of size "
+        "0 (empty StyleSet(), a DefaultStyleSet with every style removed in any order), 1, 2, default less one, default plus "
+        "own styles (also re-defining b / c1 / info): 23 sets x 4 fixed messages over the default tag names (b, u, c1, c2, "
+        "info, comment, question, error, an own tag kx) + random ASTs re-read under a random such set (2500 / 40000); a tag "
+        "denotes a style only when the set or pastel itself (info, comment, question, error) knows it - every other tag is "
+        "text and brings no SGR code; the three renderings must still be one string. write: full "
         "product object x method x formatter {ansi forced, ansi unforced, plain, null} x indent 0..4 x fixed "
         "multi-line texts (+ random ASTs in the thorough tier); non-trivial = indent > 0 or a line method. "
         "scopes: every chain of scopes of depth <= 3 (thorough: 4) over target {io,out,err} x {set,increment} x "
@@ -112,6 +126,10 @@ ASSUMPTIONS = [
     "indent_lines_rendered (formatting keeps every line's indentation) is proved for the formatter entry points "
     "on backslash-free text; that Output.write hands exactly the indented text to them is indent_lines",
     "streams are BufferedOutputStreams (no ANSI capability of their own); decoration is forced by the formatter",
+    "a formatter is built from exactly the style set it is handed (only None stands for the default set; a StyleSet object "
+    "without styles registers nothing) on top of pastel's own four styles: which tags denote styles under a given set is "
+    "the oracle's own account (registered_codes / PASTEL_BUILTIN), the model builds its registry from the same "
+    "description (Style.formatterRegistry, theorems formatter_registry_empty / empty_set_default_tags_are_text)",
     "a style passed for a single call is rendered with its own colours and attributes also when its tag is registered "
     "with others (sgr_call_ignores_registered_tag; the registry of a formatter holds converted snapshots): compared on "
     "the style table through AnsiFormatter.format, Output.format and IO.format",
@@ -157,10 +175,44 @@ def named_codes():
 _NAMED_CODES = None
 
 
-def codes_of_spec(spec):
+# the four styles pastel registers itself (pastel.Pastel.__init__): they are styles of every formatter, whatever style
+# set it was built from
+PASTEL_BUILTIN = {"error": [97, 41], "info": [32], "comment": [33], "question": [30, 46]}
+
+
+def registered_codes(sset):
+    """the oracle's own account of a style set built by `sset` (None: no style set given = the default one):
+    tag -> SGR codes"""
+    global _NAMED_CODES
+    if _NAMED_CODES is None:
+        _NAMED_CODES = named_codes()
+    reg = {} if sset is not None and sset["base"] == "empty" else dict(_NAMED_CODES)
+    if sset is not None:
+        for t in sset["remove"]:
+            reg.pop(t, None)
+        for a in sset["add"]:
+            reg[a["tag"]] = spec_codes(a.get("fg"), a.get("bg"), a["attrs"])
+    return reg
+
+
+def denoted(name, sset):
+    """the codes of the style a tag name denotes in a formatter built from `sset`, None when it denotes no style (the
+    tag is text)"""
+    low = name.lower()
+    reg = registered_codes(sset)
+    if low in reg:
+        return list(reg[low])
+    if low in PASTEL_BUILTIN:
+        return list(PASTEL_BUILTIN[low])
+    return None
+
+
+def codes_of_spec(spec, sset=None):
     global _NAMED_CODES
     if spec is None:
         return []
+    if "name" in spec and sset is not None:
+        return denoted(spec["name"], sset) or []
     if "name" in spec:
         if _NAMED_CODES is None:
             _NAMED_CODES = named_codes()
@@ -223,13 +275,13 @@ def text_of(nodes):
     return "".join(out)
 
 
-def expected_look(nodes, outer):
+def expected_look(nodes, outer, sset=None):
     out = []
     for n in nodes:
         if n[0] in ("t", "u"):
             out.extend((ch, outer) for ch in n[1])
         else:
-            out.extend(expected_look(n[3], frozenset(codes_of_spec(n[4]))))
+            out.extend(expected_look(n[3], frozenset(codes_of_spec(n[4], sset)), sset))
     return out
 
 
@@ -307,6 +359,105 @@ def gen_nodes(rng, depth, width, top=True):
             o, c, spec = gen_style(rng)
             nodes.append(["s", o, c, gen_nodes(rng, depth - 1, max(1, width - 1), False), spec])
     return normalise(nodes)
+
+
+# ---- formatters built from a GIVEN style set: an empty StyleSet(), a default set with styles removed (down to none),
+# small sets of own styles (also under the default tag names).  A tag denotes a style only when the set (or pastel
+# itself) knows it; every other tag - `<b>` on a formatter built from an empty set - is text, on every formatter alike.
+SSET_TAGS = ["kx", "hl", "b", "c1", "info", "zz"]     # none is the lowered form of an UNKNOWN_TAGS entry
+
+
+def gen_sset(rng):
+    r = rng.random()
+    if r < 0.22:
+        return {"base": "empty", "remove": [], "add": []}
+    if r < 0.40:
+        order = list(NAMED)
+        rng.shuffle(order)
+        return {"base": "default", "remove": order, "add": []}                      # emptied, in any order
+    if r < 0.62:
+        order = list(NAMED)
+        rng.shuffle(order)
+        return {"base": "default", "remove": sorted(order[rng.choice([1, 2, 2]):]), "add": []}     # 1 or 2 left
+    add = []
+    for t in rng.sample(SSET_TAGS, rng.choice([1, 1, 2])):
+        add.append(dict(rng.choice(STYLE_POOL[:3] + STYLE_POOL[4:]), tag=t))
+    if r < 0.85:
+        return {"base": "empty", "remove": [], "add": add}                              # 1 or 2 own styles
+    return {"base": "default", "remove": [rng.choice(NAMED)] if rng.random() < 0.5 else [], "add": add}
+
+
+def sset_size(sset):
+    return len(registered_codes(sset))
+
+
+def retarget(nodes, sset, top=True):
+    """the message AST read under a style set: a named node whose tag denotes no style there becomes text (its tags
+    written out, closed by name); a named node that stays a style is closed by its own name or `</>`"""
+    out = []
+    for n in nodes:
+        if n[0] == "u":
+            m = re.match(r"</?([^<>]*)>$", n[1])
+            # a tag meant as text that denotes a style under THIS set (an own tag spelled like it) is left out
+            out.append(n if not m or denoted(m.group(1), sset) is None else ["t", "?"])
+            continue
+        if n[0] != "s":
+            out.append(n)
+            continue
+        kids = retarget(n[3], sset, False)
+        if "name" not in n[4]:
+            out.append([n[0], n[1], n[2], kids, n[4]])
+        elif denoted(n[4]["name"], sset) is None:
+            out.append(["u", "<%s>" % n[1]])
+            out.extend(kids)
+            out.append(["u", "</%s>" % n[1]])
+        else:
+            close = n[2] if n[2].lower() in ("", n[4]["name"].lower()) else n[1]
+            out.append(["s", n[1], close, kids, n[4]])
+    return normalise(out) if top else out
+
+
+def gen_sset_case(rng, sset=None):
+    sset = sset if sset is not None else gen_sset(rng)
+    nodes = gen_nodes(rng, 3, 4)
+    # the default tag names and the set's own tags are what the message is about
+    for t in [a["tag"] for a in sset["add"]] + [rng.choice(NAMED)]:
+        if rng.random() < 0.7:
+            shown = rng.choice([t, t, t.upper()])
+            nodes.insert(rng.randrange(len(nodes) + 1),
+                         ["s", shown, rng.choice([shown, ""]), [["t", gen_text(rng, 3) or "x"]], {"name": t}])
+    style = rng.choice(STYLE_POOL) if rng.random() < 0.15 else None
+    return {"k": "msg", "ast": retarget(normalise(nodes), sset), "pre": [], "style": style, "sset": sset,
+            "shared": rng.random() < 0.5}
+
+
+SSET_FIXED_MSGS = [
+    [["s", "b", "b", [["t", "bold"]], {"name": "b"}], ["t", " and "], ["s", "c1", "c1", [["t", "cyan"]], {"name": "c1"}]],
+    [["s", "u", "u", [["t", "under "], ["s", "c2", "c2", [["t", "nested"]], {"name": "c2"}]], {"name": "u"}], ["t", " tail"]],
+    [["s", "info", "", [["t", "i"]], {"name": "info"}], ["s", "error", "error", [["t", "e\n"]], {"name": "error"}],
+     ["s", "comment", "", [["t", "c"]], {"name": "comment"}], ["s", "question", "question", [["t", "q"]], {"name": "question"}]],
+    [["s", "kx", "kx", [["t", "custom"]], {"name": "kx"}], ["t", " "], ["s", "B", "b", [["t", "x"]], {"name": "b"}],
+     ["t", "\nline two "], ["s", "c1", "", [["t", "y"]], {"name": "c1"}]],
+]
+
+
+def sset_table():
+    """style sets of size 0, 1, 2 (and the default set less one / plus one) x the fixed messages over the default tag names"""
+    ssets = [{"base": "empty", "remove": [], "add": []},
+             {"base": "default", "remove": list(NAMED), "add": []},
+             {"base": "default", "remove": list(reversed(NAMED)), "add": []}]
+    for keep in (["b"], ["c1"], ["info"], ["b", "c1"], ["u", "c2"], ["error", "b"]):
+        ssets.append({"base": "default", "remove": [t for t in NAMED if t not in keep], "add": []})
+    for t in NAMED:
+        ssets.append({"base": "default", "remove": [t], "add": []})
+    k = dict(STYLE_POOL[0], tag="kx")
+    b = dict(STYLE_POOL[2], tag="b")
+    ssets += [{"base": "empty", "remove": [], "add": [k]}, {"base": "empty", "remove": [], "add": [b]},
+              {"base": "empty", "remove": [], "add": [k, b]}, {"base": "default", "remove": [], "add": [k]},
+              {"base": "default", "remove": [], "add": [b]}, {"base": "default", "remove": ["b"], "add": [b]}]
+    for i, ss in enumerate(ssets):
+        for j, m in enumerate(SSET_FIXED_MSGS):
+            yield {"k": "msg", "ast": retarget(m, ss), "pre": [], "style": None, "sset": ss, "shared": (i + j) % 2 == 0}
 
 
 def normalise(nodes):
@@ -627,6 +778,11 @@ def generate(tier, rng):
         prog = head + prog
         yield {"k": "secprog", "fmt": "plain" if j % 8 == 7 else "ansi", "via": rng.choice(["out", "io"]),
                "out": rng.choice([0, 0, 1, 3]), "prog": prog}
+    # ---- formatters built from a given style set (sizes 0, 1, 2, ...)
+    for c in sset_table():
+        yield c
+    for _ in range(40000 if thorough else 2500):
+        yield gen_sset_case(rng)
     # ---- malformed stream
     for _ in range(20000 if thorough else 1000):
         yield {"k": "bad", "msg": gen_bad(rng)}
@@ -694,13 +850,30 @@ def _fmt_depth(f):
     return len(f._formatter._style_stack.styles)
 
 
+def _build_sset(sset):
+    from clikit.api.formatter import StyleSet
+    from clikit.formatter import DefaultStyleSet
+    ss = StyleSet() if sset["base"] == "empty" else DefaultStyleSet()
+    for t in sset["remove"]:
+        ss.remove(t)
+    for a in sset["add"]:
+        ss.add(_style_obj(a, a["tag"]))
+    return ss
+
+
 def _run_msg(case):
     from clikit.formatter import AnsiFormatter, PlainFormatter
     raw = raw_of(case["ast"])
     pre = "".join("<%s>" % t for t in case["pre"])
     style = _style_obj(case["style"], case["style"].get("tag")) if case["style"] is not None else None
     try:
-        af, pf = AnsiFormatter(forced=True), PlainFormatter()
+        if case.get("sset") is not None:
+            # both formatters are built from the style set the case describes: one StyleSet object for both, or one each
+            ss = _build_sset(case["sset"])
+            af = AnsiFormatter(ss, forced=True)
+            pf = PlainFormatter(ss if case.get("shared") else _build_sset(case["sset"]))
+        else:
+            af, pf = AnsiFormatter(forced=True), PlainFormatter()
         if pre:
             af.format(pre)
             pf.format(pre)
@@ -1003,6 +1176,10 @@ def model_requests(case):
         raw = raw_of(case["ast"])
         tab = _table(raw)
         base = {"m": "c11.render", "msg": raw, "table": tab, "stack": case["pre"]}
+        if case.get("sset") is not None:
+            ss = case["sset"]
+            base["styles"] = {"base": ss["base"], "remove": list(ss["remove"]),
+                              "add": [_style_json(a, a["tag"]) for a in ss["add"]]}
         style = _style_json(case["style"], case["style"].get("tag")) if case["style"] is not None else None
         # "wf": the hypotheses of the message theorems (clean, balanced), decided by the model on this message
         return [dict(base, mode="ansi", style=style), dict(base, mode="plain", style=None, wf=True)]
@@ -1122,10 +1299,28 @@ def _expect_lines(raw, text, n):
     return "\n".join((" " * n + t) if r else t for r, t in zip(rl, tl))
 
 
+def _sset_ast_ok(nodes, sset):
+    for n in nodes:
+        if n[0] == "s":
+            if "name" in n[4] and denoted(n[4]["name"], sset) is None:
+                return False
+            if not _sset_ast_ok(n[3], sset):
+                return False
+        elif n[0] == "u":
+            m = re.match(r"</?([^<>]*)>$", n[1])
+            if m and denoted(m.group(1), sset) is not None:
+                return False
+    return True
+
+
 def _oracle_msg(case, obs):
+    sset = case.get("sset")
     if "ctor" in obs:
-        return "a formatter with the default style set cannot be built: " + obs["ctor"]
+        return "a formatter with %s cannot be built: %s" % (
+            "the default style set" if sset is None else "a style set of %d style(s)" % sset_size(sset), obs["ctor"])
     ast_ = case["ast"]
+    if sset is not None and not _sset_ast_ok(ast_, sset):
+        return None      # not a generated case: a style node whose tag denotes no style under this style set
     raw, text = raw_of(ast_), text_of(ast_)
     for name in ("ansi", "plain", "removed"):
         if "err" in obs[name]:
@@ -1142,14 +1337,15 @@ def _oracle_msg(case, obs):
         return "remove_format differs from the tag-stripped text"
     if ESC in plain or ESC in removed:
         return "an undecorated rendering contains an escape byte"
-    for tag in NAMED:
+    for tag in (NAMED if sset is None else sorted(registered_codes(sset))):
         for mk in ("<%s>" % tag, "</%s>" % tag):
             if mk in plain and mk not in text:
                 return "undecorated output shows the markup %s of a registered style" % mk
     if case["pre"]:
         return None      # a stack left over by an earlier unbalanced message: only "same text" is demanded
-    # the look: every character carries exactly the codes of the innermost style around it
-    want = expected_look(ast_, frozenset(codes_of_spec(case["style"])))
+    # the look: every character carries exactly the codes of the innermost style around it (a tag that denotes no style
+    # in a formatter built from this style set is text and brings no code)
+    want = expected_look(ast_, frozenset(codes_of_spec(case["style"])), sset)
     got = look(ansi)
     if got is None:
         return "decorated rendering contains a malformed escape sequence"
@@ -1440,6 +1636,8 @@ def nontrivial_key(case, obs):
     if k == "msg":
         if count_styles(case["ast"]) == 0:
             return None
+        if case.get("sset") is not None:
+            return "m" + _h(raw_of(case["ast"]) + repr(case["style"]) + repr(sorted(registered_codes(case["sset"]).items())))
         return "m" + _h(raw_of(case["ast"]) + repr(case["pre"]) + repr(case["style"]))
     if k == "sgr":
         if not (case["fg"] or case["bg"] or case["attrs"]):
@@ -1472,8 +1670,9 @@ def bucket(case, obs):
             min(3, _secprog_depth(case["prog"])), ",raised" if obs.get("raised") else "")
     if k == "msg":
         n = count_styles(case["ast"])
-        return "msg:styles=%s%s%s" % (n if n < 4 else "4+", ",stack" if case["pre"] else "",
-                                      ",call-style" if case["style"] else "")
+        return "msg:styles=%s%s%s%s" % (n if n < 4 else "4+", ",stack" if case["pre"] else "",
+                                        ",call-style" if case["style"] else "",
+                                        ",style-set-of-%d" % sset_size(case["sset"]) if case.get("sset") is not None else "")
     if k == "bad":
         return "bad:%s" % ("ValueError" if "err" in obs.get("plain", {}) else "accepted")
     if k == "sgr":
@@ -1639,6 +1838,18 @@ def neighbours(case):
                     yield dict(case, obj=obj, method=m, indent=n, quiet=False, verbosity=0, flags=None)
         for ast_ in FIXED_TEXTS:
             yield dict(case, ast=ast_)
+    elif k == "msg" and case.get("sset") is not None:
+        # a formatter built from a given style set: the same message under other style sets, other messages under this one
+        ss = case["sset"]
+        yield dict(case, style=None)
+        yield dict(case, shared=not case.get("shared"))
+        for other in ({"base": "empty", "remove": [], "add": []}, {"base": "default", "remove": list(NAMED), "add": []},
+                      {"base": "default", "remove": [], "add": []}):
+            yield dict(case, sset=other, ast=retarget(case["ast"], other))
+        for m in SSET_FIXED_MSGS:
+            yield dict(case, ast=retarget(m, ss))
+        for t in NAMED:
+            yield dict(case, ast=retarget([["s", t, t, [["t", "a\nb"]], {"name": t}]], ss))
     elif k == "msg":
         yield dict(case, pre=[], style=None)
         for st in STYLE_POOL:
